@@ -214,7 +214,7 @@ def op_is_comment(ops):
     return 'put_line_comment' in ops
 
 
-def gen_step(rnd, root, donors, weights=None, norm=True, ops=None, with_par=False, kinds=None, cand=None, op=None):
+def gen_step(rnd, root, donors, weights=None, norm=True, ops=None, with_par=False, kinds=None, cand=None, op=None, code=None, form=None):
     """Pick a target and an op (or use the given candidate index `cand` / operation `op`: table-driven workloads). Returns step dict or None."""
     cands = candidates(root.a)
     if kinds:
@@ -257,10 +257,13 @@ def gen_step(rnd, root, donors, weights=None, norm=True, ops=None, with_par=Fals
         if forced_op not in pool:
             return None   # operation not applicable to this target
         op = forced_op
-    form = rnd.choice(['src', 'ast', 'fst'])
+    forced_form = form
+    form = forced_form or rnd.choice(['src', 'ast', 'fst'])
     ckind = 'expr' if kind in ('expr1', 'dictval') else kind
     src_pool = GRAMMAR_CODE.get(kind, []) + (donors.get(ckind, []) if kind not in ('target', 'starred') else [])
     code_src = rnd.choice(src_pool) if src_pool else 'zz'
+    if code is not None:
+        code_src = code
     step = {'path': path, 'kind': kind, 'op': op, 'form': form, 'code': code_src, 'opts': gen_opts(rnd, norm),
             'ttype': type(node).__name__, 'ptype': type(parent).__name__, 'field': field,
             'anc': [type(resolve(root.a, path[:i])).__name__ for i in range(len(path))],
@@ -338,6 +341,8 @@ def join_multi(step):
 
 
 def make_slice_code(step, FST):
+    if step.get('as_slice'):
+        return make_code(step, FST), False   # the code is itself a sequence (List / Tuple ...) whose ELEMENTS are put (one=False)
     if 'multi' not in step:
         return make_code(step, FST), True  # one=True
     src, mode = join_multi(step)
